@@ -122,15 +122,13 @@ theorem skipSpaces_append (ws s : SwcText.Str) (hws : ∀ c ∈ ws, isSpace c = 
 
 /-! ## simulation of the subtree loop on rendered branches -/
 
-theorem float_flag (ty : Int) (f : Nat) (v : Sci) (t : List Tok) (flag : Bool) (root cur : Int) (rows : List Row) :
-    parseSubtree ty f (.float v :: t) flag root cur rows = parseSubtree ty f (.float v :: t) true root cur rows := by
-  cases f with
-  | zero => rfl
-  | succ f => simp [parseSubtree]
+theorem float_true (ty : Int) (f : Nat) (v : Sci) (t : List Tok) (root cur : Int) (rows : List Row) :
+    parseSubtree ty (f + 1) (.float v :: t) true root cur rows = .error .tokenType := by
+  simp [parseSubtree]
 
-theorem point_tail (ty : Int) (g : Nat) (x y z r : Sci) (rest : List Tok) (flag : Bool) (root cur : Int)
+theorem point_tail (ty : Int) (g : Nat) (x y z r : Sci) (rest : List Tok) (root cur : Int)
     (rows : List Row) (hr : rest.head? ≠ some .bad) :
-    parseSubtree ty (g + 1) (.float x :: .float y :: .float z :: .float r :: .rp :: rest) flag root cur rows
+    parseSubtree ty (g + 1) (.float x :: .float y :: .float z :: .float r :: .rp :: rest) false root cur rows
       = parseSubtree ty g rest true root (rows.length : Int) (rows ++ [⟨ty, x, y, z, r, cur⟩]) := by
   simp [parseSubtree, parseNode, expectRp, adv_cons2, adv_cons, hr]
 
@@ -138,7 +136,7 @@ theorem point_step (ty : Int) (g : Nat) (p : Pt) (rest : List Tok) (root cur : I
     (rows : List Row) (hr : rest.head? ≠ some .bad) :
     parseSubtree ty (g + 2) (ptToks p ++ rest) true root cur rows
       = parseSubtree ty g rest true root (rows.length : Int) (rows ++ [⟨ty, p.x, p.y, p.z, p.r, cur⟩]) := by
-  rw [← point_tail ty g p.x p.y p.z p.r rest false root cur rows hr]
+  rw [← point_tail ty g p.x p.y p.z p.r rest root cur rows hr]
   simp [ptToks, parseSubtree, adv_cons2]
 
 theorem flatMap_head (pts : List Pt) (rest : List Tok) (hr : rest.head? ≠ some .bad) :
@@ -235,7 +233,6 @@ theorem split_step (ty : Int) (alts : List Branch) (g : Nat) (rest : List Tok) (
   · have hq := hQ (g + 1) rest cur rows hr (by omega)
     rw [h] at hq ⊢
     simp [parseSubtree, adv_cons2] at hq
-    rw [float_flag] at hq
     simp [parseSubtree, adv_cons2, hq, expectRp, adv_cons, hr]
   · have hq := hQ g rest cur rows hr hg
     rw [h] at hq ⊢
@@ -315,12 +312,11 @@ theorem nonEmpty_shape (b : Branch) (hb : NonEmpty b) : ∃ v t, branchToks b = 
 theorem top_run (ty : Int) (b : Branch) (v : Sci) (t rest : List Tok) (par : Int) (rows : List Row) (f : Nat)
     (h : branchToks b = .lp :: .float v :: t) (hr : rest.head? ≠ some .bad)
     (hf : (branchToks b).length + 1 ≤ f) :
-    parseSubtree ty f (.float v :: (t ++ .rp :: rest)) true par par rows
+    parseSubtree ty f (.float v :: (t ++ .rp :: rest)) false par par rows
       = .ok (.rp :: rest, rows ++ rowsOf ty b par rows.length) := by
   have hq := sim_alts ty [b] (f + 1) rest par rows hr (by have := needL_le [b]; simp only [altsToks] at this; omega)
   simp only [altsToks, h] at hq
   simp [parseSubtree, adv_cons2] at hq
-  rw [float_flag] at hq
   simpa [altsRows] using hq
 
 theorem skipComments_lp (f : Nat) (t : List Tok) : skipComments (f + 1) (.lp :: t) = .ok (.lp :: t) := by
@@ -481,11 +477,17 @@ theorem bad_point_rejected (a b c d e : Sci) (w : SwcText.Str) (t : List Tok) :
     (∃ er, parseNode (.float a :: .float b :: .float c :: .float d :: []) = .error er) := by
   refine ⟨?_, ?_, ?_, ?_⟩ <;> simp [parseNode, adv, expectRp]
 
+/-- a point that lacks its opening bracket is rejected -/
+theorem unbracketed_point_rejected (ty : Int) (f : Nat) (v : Sci) (rest : List Tok) (root cur : Int) (rows : List Row) :
+    parseSubtree ty (f + 1) (.float v :: rest) true root cur rows = .error .tokenType := by
+  simp [parseSubtree]
+
 /-- an error inside a point is an error of the whole conversion step (nothing is converted in part) -/
 theorem node_error_propagates (ty : Int) (f : Nat) (toks : List Tok) (v : Sci) (rest : List Tok) (flag : Bool)
-    (root cur : Int) (rows : List Row) (er : Err) (ht : toks = .float v :: rest) (h : parseNode toks = .error er) :
+    (root cur : Int) (rows : List Row) (er : Err) (ht : toks = .float v :: rest) (h : parseNode toks = .error er)
+    (hf : flag = false) :
     parseSubtree ty (f + 1) toks flag root cur rows = .error er := by
-  subst ht
+  subst ht hf
   simp [parseSubtree, h]
 
 /-- bracket depth of a token list -/
@@ -621,7 +623,7 @@ theorem lp_true_step (ty : Int) (f : Nat) (t : List Tok) (root cur : Int) (rows 
 theorem lp_false_step (ty : Int) (f : Nat) (t : List Tok) (root cur : Int) (rows : List Row)
     (ht : t.head? ≠ some .bad) :
     parseSubtree ty (f + 1) (.lp :: t) false root cur rows
-      = (parseSubtree ty f t true cur cur rows >>= fun r => expectRp r.1 >>= fun t2 =>
+      = (parseSubtree ty f t false cur cur rows >>= fun r => expectRp r.1 >>= fun t2 =>
           parseSubtree ty f t2 true root cur r.2) := by
   simp [parseSubtree, adv_cons, ht]
 
@@ -659,7 +661,7 @@ theorem fail_split (ty : Int) (alts : List Branch)
         rw [lp_false_step ty f _ root cur rows (by simp)]
         apply fail_bind
         have := hA' (.lp :: .float v :: t3) (by simp [List.prefix_cons_iff, h3]) (f + 1) cur cur rows
-        rw [lp_true_step ty f _ cur cur rows (by simp), float_flag] at this
+        rw [lp_true_step ty f _ cur cur rows (by simp)] at this
         exact this
     · have hA' := hA
       rw [he] at h hA'
@@ -725,7 +727,7 @@ theorem parseTop_hdr (label : SwcText.Str) (T : List Tok) (f : Nat)
     (hl : upper label = "AXON".toList ∨ upper label = "DENDRITE".toList) (hT : T.head? ≠ some .bad) :
     parseTop (f + 1) (.lp :: .literal label :: .rp :: T) []
       = (skipComments f T >>= fun t4 => expectLp t4 >>= fun t5 =>
-          parseSubtree (labelType label) f t5 true (-1) (-1) [] >>= fun r => parseTop f r.1 r.2) := by
+          parseSubtree (labelType label) f t5 false (-1) (-1) [] >>= fun r => parseTop f r.1 r.2) := by
   rw [parseTop]
   simp only [adv_cons2 _ _ _ (show Tok.literal label ≠ .bad by simp), ok_bind]
   rw [if_pos (label_cond label hl)]
@@ -746,7 +748,7 @@ theorem convertWith_trunc (label : SwcText.Str) (b : Branch) (T : List Tok) (f :
   have hhd : T.head? ≠ some .bad := prefix_head hT (branchToks_head' b)
   have h0 : convertWith (f + 2) (.lp :: .lp :: .literal label :: .rp :: T)
       = (skipComments (f + 1) T >>= fun t4 => expectLp t4 >>= fun t5 =>
-          parseSubtree (labelType label) (f + 1) t5 true (-1) (-1) [] >>= fun r => parseTop (f + 1) r.1 r.2)
+          parseSubtree (labelType label) (f + 1) t5 false (-1) (-1) [] >>= fun r => parseTop (f + 1) r.1 r.2)
         >>= fun r => (match r.1 with
           | [] => .error .eof
           | .rp :: _ => do
@@ -764,9 +766,9 @@ theorem convertWith_trunc (label : SwcText.Str) (b : Branch) (T : List Tok) (f :
   · simp only [skipComments, expectLp, adv_single, ok_bind, parseSubtree_nil, parseTop_nil]
     exact ⟨_, rfl⟩
   · rename_i T2
-    rw [lp_true_step _ _ _ _ _ _ (by simp), float_flag] at hfail
+    rw [lp_true_step _ _ _ _ _ _ (by simp)] at hfail
     simp only [skipComments, ok_bind, expectLp, adv_cons2 _ _ _ (show Tok.float v ≠ .bad by simp)]
-    cases hx : parseSubtree ty (f + 1) (.float v :: T2) true (-1) (-1) [] with
+    cases hx : parseSubtree ty (f + 1) (.float v :: T2) false (-1) (-1) [] with
     | error e => simp
     | ok r =>
       obtain ⟨t, rows⟩ := r
